@@ -37,7 +37,7 @@ ECs == { [k |-> "binL", op |-> op] : op \in BinOps } \cup { [k |-> "binR", op |-
        \cup { [k |-> "unkL", op |-> op] : op \in {"==", "!=", "||"} }
        \* the other operand is the bare word nil (the usual existence check x == nil / x != nil), on either side
        \cup { [k |-> "nilR", op |-> op] : op \in {"==", "!="} } \cup { [k |-> "nilL", op |-> op] : op \in {"==", "!="} }
-       \cup { [k |-> c, op |-> ""] : c \in {"not", "arr", "arrfirst", "hashv", "hashfirst", "idxI", "idxL", "argGo", "argP", "argUser", "argVar0", "argVar1", "cond", "elifcond", "iter"} }
+       \cup { [k |-> c, op |-> ""] : c \in {"not", "arr", "arrfirst", "hashv", "hashfirst", "idxI", "idxL", "argGo", "argP", "argUser", "argUserExtra", "argVar0", "argVar1", "cond", "elifcond", "iter"} }
 
 \* the other operand is chosen so that the hole is evaluated (binL/binR) or skipped (skipR)
 WrapE(c, e) ==
@@ -58,6 +58,7 @@ WrapE(c, e) ==
     [] c.k = "argGo" -> Call("id", <<e>>)
     [] c.k = "argP"  -> Call("p", <<IntL(2), e>>)
     [] c.k = "argUser" -> Call("f", <<e>>)
+    [] c.k = "argUserExtra" -> Call("f", <<IntL(1), e>>)          \* an argument the template function declares no parameter for
     [] c.k = "argVar0" -> Call("vcount", <<e, IntL(2)>>)          \* first / later argument in the variadic tail of a Go helper
     [] c.k = "argVar1" -> Call("vcount", <<IntL(1), e>>)
     [] c.k = "cond"  -> IfElse(e, <<Text(<<"T">>)>>, <<Text(<<"F">>)>>)
@@ -124,7 +125,7 @@ BlockECs == {"cond", "elifcond", "iter"}
 RECURSIVE EndsInCall(_)
 EndsInCall(cs) == IF cs = <<>> THEN fault.n \in {"fail", "failc", "faili", "nofunc", "failchain", "failmeth", "failmethchain"}
                   ELSE IF Head(cs).k = "not" THEN EndsInCall(Tail(cs))
-                  ELSE Head(cs).k \in {"argGo", "argP", "argUser", "argVar0", "argVar1"}
+                  ELSE Head(cs).k \in {"argGo", "argP", "argUser", "argUserExtra", "argVar0", "argVar1"}
 IterOK(cs) == IF cs = <<>> THEN TRUE ELSE IF Head(cs).k = "not" THEN ~EndsInCall(cs) ELSE TRUE
 RECURSIVE CondOK(_)
 CondOK(cs) == IF cs = <<>> THEN TRUE
